@@ -16,6 +16,8 @@ the body adds `k` **in place** to the array it was given for `input` (`arr += k`
 `np.add(arr, k, out=arr)`); `spec["alias"] = {output: [input, "same" | "view"]}`: the body returns the
 (updated) input array itself, or a full view of it, as `output` (the polynomial of such an output is
 `x_input + k`, so the value of the returned array is the value of the polynomial).
+`spec["dorder"]`: the order in which the default values are defined (`defaults.update({name: value})` one
+after the other; a mapping: the order has no meaning, it is not on the protocol line of the model).
 The body counts its runs and linearizations and logs (snapshots of) the inputs it saw: this is the
 run-counter instrumentation of the oracle; it lives in the harness, not in /repo.
 """
